@@ -22,6 +22,23 @@ Theorem advert_reaches_every_candidate : forall H n m,
   held n <> [] /\ exists t, In t (cands n) /\ m = Replicate (self n) t (self n) (advert H n).
 Proof. exact replicate_msgs_spec. Qed.
 
+(* ... and the replication targets are computed from the routing table and the STORE's responsible range:
+   with at least CLOSE_GROUP_SIZE table peers within the range, exactly the table peers at distance <= range
+   -- a peer exactly ON the range is a target --; otherwise the CLOSE_GROUP_SIZE nearest; every target gets
+   the list (advert_reaches_every_candidate) *)
+Theorem replication_targets_are_peers_within_range : forall n,
+  (forall r p, store_range n = Some r -> (N.to_nat CGS <= within n r)%nat ->
+     (In p (cands n) <-> exists d, In (p, d) (table n) /\ d <= r)) /\
+  (forall r p, store_range n = Some r -> (N.to_nat CGS <= within n r)%nat -> In (p, r) (table n) -> In p (cands n)) /\
+  ((store_range n = None \/ exists r, store_range n = Some r /\ (within n r < N.to_nat CGS)%nat) ->
+     cands n = map fst (firstn (N.to_nat CGS) (sort_by_dist (table n)))) /\
+  CGS = 5.
+Proof.
+  intros n. split; [intros r p; apply cands_in_range|]. split.
+  - intros r p Hr Hc Hin. apply (cands_in_range n r p Hr Hc). exists r. split; [exact Hin|apply N.le_refl].
+  - split; [apply cands_fallback|exact repl_close_group_size_pinned].
+Qed.
+
 (* a list from a holder that is not among the K closest peers, or that names this node itself, is
    ignored: no state change, no fetch *)
 Theorem acts_only_on_close_holders : forall D n h keys,
